@@ -288,6 +288,31 @@ func prop(cs Case) error {
 		if r1, r2 := int(f.f(b, c, a)), int(f.f(c, a, b)); r1 != got || r2 != got {
 			return fmt.Errorf("%s: cyclic rotations give %d, %d, want %d", f.name, r1, r2, got)
 		}
+		// the three coordinates as windows of one flat array (what Coord(i) and slicing
+		// FlatCoords hand out: each window's capacity runs on over its neighbours), laid
+		// out in every order; the answer is the same and the array is left as it was
+		for _, order := range [][3]int{{0, 1, 2}, {0, 2, 1}, {1, 0, 2}, {1, 2, 0}, {2, 0, 1}, {2, 1, 0}} {
+			src := [3][]float64{a, b, c}
+			var flat []float64
+			var off [3]int
+			for _, k := range order {
+				off[k] = len(flat)
+				flat = append(flat, src[k]...)
+			}
+			flat = append(flat, 7, 7) // room behind the last window as well
+			flat = flat[:len(flat)-2]
+			before := append([]float64{}, flat[:cap(flat)]...)
+			w := func(k int) geom.Coord { return geom.Coord(flat[off[k] : off[k]+len(src[k])]) }
+			if r := int(f.f(w(0), w(1), w(2))); r != got {
+				return fmt.Errorf("%s with the arguments as windows of one array laid out in order %v = %d, %d with separate slices", f.name, order, r, got)
+			}
+			now := flat[:cap(flat)]
+			for i := range before {
+				if math.Float64bits(before[i]) != math.Float64bits(now[i]) {
+					return fmt.Errorf("%s with the arguments as windows of one array (order %v) changed element %d of the array from %v to %v", f.name, order, i, before[i], now[i])
+				}
+			}
+		}
 	}
 	return nil
 }
